@@ -225,6 +225,10 @@ func writeSTL(wg *sync.WaitGroup, path string) (chan<- []*sdf.Triangle3, error) 
 				d.Vertex3[2] = float32(t[2].Z)
 				if err := binary.Write(buf, binary.LittleEndian, &d); err != nil {
 					fmt.Printf("%s\n", err)
+					// The renderer is still sending: keep reading (and discarding)
+					// until it closes the channel, otherwise it blocks forever.
+					for range c {
+					}
 					return
 				}
 				count++
